@@ -411,6 +411,20 @@ func c05Sync(ctx context.Context, dest string, lower, listB []*types.Stat, conte
 				}
 			}
 			data := contentB[p]
+			// delivered as the sender does: in chunks of 32 KiB; a shorter content in two halves
+			const chunk = 32 * 1024
+			if len(data) > chunk {
+				for off := 0; off < len(data); off += chunk {
+					end := off + chunk
+					if end > len(data) {
+						end = len(data)
+					}
+					if _, err := wc.Write(data[off:end]); err != nil {
+						return err
+					}
+				}
+				return wc.Close()
+			}
 			h := len(data) / 2
 			if h > 0 {
 				if _, err := wc.Write(data[:h]); err != nil {
@@ -1444,8 +1458,59 @@ func c05TmpNames(g *Gen, kind uint64) {
 	g.Note("directed_tmp_name_cases", n)
 }
 
+// c05ZeroRuns: file CONTENTS with long runs of zero bytes — all-zero files of sizes around one
+// page and around the sender's chunk size, data followed by a zero tail of 4095 / 4096 / 4097 /
+// one chunk, zeros at the start and in the middle, whole chunks of zeros between data — as new
+// files and over existing ones.  Stored bytes = bytes sent, digest = header ++ those bytes.
+func c05ZeroRuns(g *Gen, kind uint64) {
+	const chunk = 32 * 1024
+	data := func(n int, seed byte) []byte {
+		b := make([]byte, n)
+		for i := range b {
+			b[i] = byte(i*7+int(seed))%251 + 1
+		}
+		return b
+	}
+	zeros := func(n int) []byte { return make([]byte, n) }
+	cat := func(parts ...[]byte) []byte {
+		var out []byte
+		for _, p := range parts {
+			out = append(out, p...)
+		}
+		return out
+	}
+	var contents [][]byte
+	for _, n := range []int{1, 4095, 4096, 4097, 8192, chunk - 1, chunk, chunk + 1, 2 * chunk, 2*chunk + 4096} {
+		contents = append(contents, zeros(n))
+	}
+	for _, tail := range []int{4095, 4096, 4097, chunk} {
+		contents = append(contents, cat(data(100, 1), zeros(tail)))          // short data, zero tail
+		contents = append(contents, cat(data(chunk, 2), zeros(tail)))        // one chunk of data, then a zero tail (its own packet)
+		contents = append(contents, cat(data(4096, 3), zeros(tail)))         // both halves one page
+	}
+	contents = append(contents, cat(zeros(chunk), data(10, 4)), cat(data(chunk, 5), zeros(chunk), data(chunk, 6)),
+		cat(zeros(4096), data(4096, 7)), cat(data(chunk, 8), zeros(chunk), zeros(chunk)))
+	n := 0
+	for i, c := range contents {
+		for prior := 0; prior < 2; prior++ {
+			keep := flatEntry{&types.Stat{Path: "k", Mode: 0644, ModTime: 1600000009e9}, []byte("keep")}
+			A := []flatEntry{{keep.St.CloneVT(), keep.Content}}
+			Bl := []flatEntry{{&types.Stat{Path: "f", Mode: 0644, ModTime: 1600000001e9 + int64(i)}, c}, {keep.St.CloneVT(), keep.Content}}
+			if prior == 1 {
+				A = append([]flatEntry{{&types.Stat{Path: "f", Mode: 0644, ModTime: 1600000000e9}, data(len(c)+5000, 9)}}, A...)
+			}
+			if c05EmitCase(g, kind, 0, 0, uint64(i%2), A, Bl, "directed-contents-with-zero-runs") {
+				n++
+			}
+		}
+	}
+	g.Note("directed_zero_run_cases", n)
+}
+
 func genC05(g *Gen) {
 	c05TmpNames(g, 0x0501)
+	c05ZeroRuns(g, 0x0501)
+	c05ZeroRuns(g, 0x0502)
 	c05SpecialLinks(g, func(A, Bl []flatEntry, cls string) {
 		for _, mode := range []int{0, 1} {
 			c := cls
